@@ -191,7 +191,7 @@ def extract(F, c):
             visit_expr(b, stack); return
         pending = {}     # let var -> (range, closure def) for `let vars = (range).map(closure).collect().join(", ")`
         builders = {}
-        iters = {}
+        iters = all_iters        # iterators / collected index lists kept in locals: visible in nested blocks (`let row: Vec<usize> = ..;` outside the number loop)
         for s in b['stmts']:
             if s['k'] == 'Let' and s['init'] is not None:
                 q = unwrap_pat(s['pat'])
@@ -229,20 +229,117 @@ def extract(F, c):
                     try:
                         cx.defs[q['var']] = poly_of(init, cx)
                     except UUndec:
-                        pass
+                        if not q.get('mutable'): plain_lets[q['var']] = init           # e.g. `let hint = text.chars().nth(i).and_then(..);`
                 continue
             e = s['expr'] if s['k'] == 'Expr' else None
             if e is None: continue
             if builders and fill_loop(e, builders, pending): continue
+            if id(s) in consumed_stmts: continue
+            idx = b['stmts'].index(s)
+            if manual_join(b['stmts'], idx, stack): continue
             visit_expr(e, stack, pending)
         if b['expr'] is not None: visit_expr(b['expr'], stack, pending)
+    consumed_stmts = set()
+    def plain_write(st):
+        """the text of a statement `write!(w, "text")?;` / `writeln!(..)?;` without arguments, None otherwise"""
+        if st is None or st['k'] != 'Expr': return None
+        e = st['expr']
+        while e['k'] in ('Use', 'NeverToAny'): e = e['source']
+        if not (e['k'] == 'Match' and 'TryDesugar' in str(e.get('source', ''))): return None
+        wf = [x for x in walk(e['scrutinee']) if x['k'] == 'Call' and (callee_name(x) or '').endswith('write_fmt')]
+        if len(wf) != 1 or any(x['k'] == 'Tuple' and x['fields'] for x in walk(wf[0])): return None
+        return ''.join((y['value'] if y.get('lit') == 'Str' else decode_template(y['value'])) for y in walk(wf[0]) if y['k'] == 'Literal' and y.get('lit') in ('Str', 'ByteStr'))
+    def manual_join(stmts, k, stack):
+        """`write!(w, "[")?; for j in RANGE { if j > LO { write!(w, SEP)?; } write!(w, ITEM, ..)?; } writeln!(w, "] = 1 &")?;` is the list
+        `(RANGE).map(|j| format!(ITEM, ..)).join(SEP)` written between the two texts: registered as that emission"""
+        e = stmts[k]['expr']
+        while e['k'] in ('Use', 'NeverToAny') or (e['k'] == 'Block' and not e['stmts'] and e['expr'] is not None): e = e['source'] if e['k'] != 'Block' else e['expr']
+        if e['k'] != 'Match' or e.get('source') != 'ForLoopDesugar' or k == 0 or k + 1 >= len(stmts): return False
+        before, after = plain_write(stmts[k - 1]), plain_write(stmts[k + 1])
+        if before is None or after is None: return False
+        try: lp = loop_parts(e, cx)
+        except UUndec: return False
+        if lp is None: return False
+        var, rg, lbody = lp
+        bb = lbody
+        while bb['k'] in ('Use', 'NeverToAny'): bb = bb['source']
+        if bb['k'] != 'Block': return False
+        sts = list(bb['stmts']) + ([{'k': 'Expr', 'expr': bb['expr']}] if bb['expr'] is not None else [])
+        if len(sts) not in (1, 2) or any(x['k'] != 'Expr' for x in sts): return False
+        sep = None
+        if len(sts) == 2:
+            g = sts[0]['expr']
+            while g['k'] in ('Use', 'NeverToAny') or (g['k'] == 'Block' and not g['stmts'] and g['expr'] is not None): g = g['source'] if g['k'] != 'Block' else g['expr']
+            if g['k'] != 'If' or g.get('else') is not None: return False
+            cnd = strip(g['cond'])
+            # every element but the first: `j > LO` / `j != LO` with LO the lower bound of the range
+            if not (cnd['k'] == 'Binary' and cnd['op'] in ('Gt', 'Ne') and root_var(cnd['lhs']) == var and strip(cnd['lhs'])['k'] == 'VarRef'): return False
+            try:
+                if poly_of(cnd['rhs'], cx) != rg[0]: return False
+            except UUndec: return False
+            th = g['then']
+            while th['k'] in ('Use', 'NeverToAny'): th = th['source']
+            if th['k'] != 'Block' or len(th['stmts']) + (1 if th['expr'] is not None else 0) != 1: return False
+            sep = plain_write(th['stmts'][0] if th['stmts'] else {'k': 'Expr', 'expr': th['expr']})
+            if sep is None: return False
+        item = sts[-1]['expr']
+        while item['k'] in ('Use', 'NeverToAny'): item = item['source']
+        if not (item['k'] == 'Match' and 'TryDesugar' in str(item.get('source', ''))): return False
+        wf = [x for x in walk(item['scrutinee']) if x['k'] == 'Call' and (callee_name(x) or '').endswith('write_fmt')]
+        if len(wf) != 1 or '_is_' not in template_text(wf[0]): return False
+        synth[0] += 1
+        name = 'sudoku_gen::main::{join-loop#%d}' % synth[0]
+        fa = [x for x in walk(wf[0]) if x['k'] == 'Block' and 'format_args' in str(x.get('exp'))]
+        c.ithir[name] = {'def': name, 'params': [{}, {'pat': {'k': 'Binding', 'var': var, 'name': var.split('#')[0], 'mutable': False}}],
+                         'body': fa[0] if fa else wf[0], 'span': {'loc': e.get('loc')}}
+        emissions.append({'stack': list(stack), 'range': rg, 'closure': name, 'sep': [sep] if sep is not None else None, 'text': before + '{}' + after,
+                          'names': dict(cx.names), 'defs': dict(cx.defs), 'loc': e.get('loc')})
+        # the opening text was already seen as a plain text; the closing one is consumed here
+        if texts and texts[-1] == before: texts.pop()
+        consumed_stmts.add(id(stmts[k + 1]))
+        return True
     def map_chain(e, iters, depth=0):
         """(range, [closure defs, innermost first]) of `RANGE.map(c1).map(c2)...[.collect()]`, reading iterators kept in locals"""
         x = strip(e)
-        if depth > 6: return None
+        if depth > 14: return None
         if x['k'] == 'Block' and not x['stmts'] and x['expr'] is not None: return map_chain(x['expr'], iters, depth + 1)
         if x['k'] in ('VarRef', 'UpvarRef') and x['var'] in iters: return map_chain(iters[x['var']], iters, depth + 1)
-        if x['k'] == 'Call' and x['args'] and (callee_decl(x) in ('std::iter::Iterator::collect', 'std::iter::IntoIterator::into_iter', 'std::ops::Deref::deref', 'std::convert::AsRef::as_ref', 'std::borrow::Borrow::borrow') or (callee_name(x) or '').endswith('::as_slice')): return map_chain(x['args'][0], iters, depth + 1)
+        if x['k'] == 'Call' and x['args'] and (callee_decl(x) in ('std::iter::Iterator::collect', 'std::iter::IntoIterator::into_iter', 'std::ops::Deref::deref', 'std::convert::AsRef::as_ref', 'std::borrow::Borrow::borrow', 'std::iter::Iterator::copied', 'std::iter::Iterator::cloned') or (callee_name(x) or '').endswith(('::as_slice', '<impl [T]>::iter'))): return map_chain(x['args'][0], iters, depth + 1)
+        if x['k'] == 'Call' and callee_decl(x) == 'std::iter::Iterator::flat_map' and len(x['args']) == 2:
+            # `(0..root).flat_map(|a| (0..root).map(move |b| E(a, b)))`: the pairs (a, b) in row-major order are the two digits of an
+            # index m over 0..root*root (lemma L2), a = m / root, b = m % root: read as `(0..root*root).map(|m| E(m / root, m % root))`
+            import copy
+            cl1 = [y for y in walk(x['args'][1]) if y['k'] == 'Closure']
+            ct1 = c.ithir.get(canon(cl1[0]['def'])) if cl1 else None
+            try: rg1 = range_of(x['args'][0], cx)
+            except UUndec: rg1 = None
+            if ct1 is None or rg1 is None or len(ct1['params']) != 2 or unwrap_pat(ct1['params'][1]['pat'])['k'] != 'Binding': return None
+            b1 = ct1['body']
+            while b1['k'] in ('Use', 'NeverToAny') or (b1['k'] == 'Block' and not b1['stmts'] and b1['expr'] is not None): b1 = b1['source'] if b1['k'] != 'Block' else b1['expr']
+            b1 = strip(b1)
+            if not (b1['k'] == 'Call' and callee_decl(b1) == 'std::iter::Iterator::map' and len(b1['args']) == 2): return None
+            cl2 = [y for y in walk(b1['args'][1]) if y['k'] == 'Closure']
+            ct2 = c.ithir.get(canon(cl2[0]['def'])) if cl2 else None
+            try: rg2 = range_of(b1['args'][0], cx)
+            except UUndec: rg2 = None
+            if ct2 is None or rg2 is None or len(ct2['params']) != 2 or unwrap_pat(ct2['params'][1]['pat'])['k'] != 'Binding': return None
+            if not (rg1 == rg2 == ({}, pv('root'))): return None
+            rootvar = [v for v, sy in cx.names.items() if sy == 'root']
+            if not rootvar: return None
+            synth[0] += 1
+            mvar = 'm#product%d' % synth[0]
+            def digit(op, like):
+                return {'k': 'Binary', 'op': op, 'loc': like.get('loc'), 'ty': like.get('ty'),
+                        'lhs': {'k': 'VarRef', 'var': mvar, 'loc': like.get('loc'), 'ty': like.get('ty')}, 'rhs': {'k': 'VarRef', 'var': rootvar[0], 'loc': like.get('loc'), 'ty': like.get('ty')}}
+            m_ = {unwrap_pat(ct1['params'][1]['pat'])['var']: 'Div', unwrap_pat(ct2['params'][1]['pat'])['var']: 'Rem'}
+            def subst(y):
+                if isinstance(y, list): return [subst(z) for z in y]
+                if not isinstance(y, dict): return y
+                if y.get('k') in ('VarRef', 'UpvarRef') and y.get('var') in m_: return digit(m_[y['var']], y)
+                return {k_: (subst(v) if isinstance(v, (dict, list)) else v) for k_, v in y.items()}
+            name = 'sudoku_gen::main::{product#%d}' % synth[0]
+            c.ithir[name] = {'def': name, 'params': [{}, {'pat': {'k': 'Binding', 'var': mvar, 'name': 'm', 'mutable': False}}], 'body': subst(copy.deepcopy(ct2['body'])), 'span': {'loc': x.get('loc')}}
+            return (pc(0), pmul(pv('root'), pv('root'))), [name]
         if x['k'] == 'Call' and callee_decl(x) == 'std::iter::Iterator::map' and len(x['args']) == 2:
             cl = [y for y in walk(x['args'][1]) if y['k'] == 'Closure']
             if not cl: return None
@@ -279,6 +376,9 @@ def extract(F, c):
         del builders[v]
         return True
     synth = [0]
+    all_iters = {}
+    plain_lets = {}
+    cx.plain_lets = plain_lets
     def visit_expr(e, stack, pending=None):
         pending = pending or {}
         while e['k'] in ('Use', 'NeverToAny'): e = e['source']
@@ -426,6 +526,7 @@ def rule_sudoku(F, R):
             filtered = [f[2] for f in filters if f[0] == 'puzzle_input']
             a1 = root_var(h['args'][1])
             cl = getattr(cx, 'char_loops', {}).get(st[0])
+            digit_by_payload = False
             if cl is not None:
                 okh = cl['chvar'] == a1 and cl['src'] in filtered
             else:
@@ -433,6 +534,19 @@ def rule_sudoku(F, R):
                 for cnd in conds:
                     if cnd['k'] != 'Let': continue
                     src = strip(cnd['expr']); pt = unwrap_pat(cnd['pat'])
+                    if src['k'] in ('VarRef', 'UpvarRef') and src['var'] in getattr(cx, 'plain_lets', {}): src = strip(cx.plain_lets[src['var']])
+                    if src['k'] == 'Call' and callee_name(src) == 'std::option::Option::and_then' and len(src['args']) == 2:
+                        # `text.chars().nth(i).and_then(|ch| ch.to_digit(10))`: Some(d) exactly when the i-th character is an ASCII decimal digit,
+                        # and d prints like that character - the digit test and the character shown in one step
+                        cl_ = [y for y in walk(src['args'][1]) if y['k'] == 'Closure']
+                        ct_ = c.ithir.get(canon(cl_[0]['def'])) if cl_ else None
+                        b_ = ct_['body'] if ct_ is not None and len(ct_['params']) == 2 else None
+                        while b_ is not None and (b_['k'] in ('Use', 'NeverToAny') or (b_['k'] == 'Block' and not b_['stmts'] and b_['expr'] is not None)): b_ = b_['source'] if b_['k'] != 'Block' else b_['expr']
+                        b_ = strip(b_) if b_ is not None else None
+                        if b_ is not None and b_['k'] == 'Call' and (callee_name(b_) or '').endswith('<impl char>::to_digit') and str(strip(b_['args'][1]).get('value')) == '10' \
+                                and root_var(b_['args'][0]) == unwrap_pat(ct_['params'][1]['pat']).get('var'):
+                            src = strip(src['args'][0]); digit_by_payload = True
+                        else: continue
                     if not (src['k'] == 'Call' and callee_decl(src) == 'std::iter::Iterator::nth' and root_var(src['args'][1]) in loopvar and strip(src['args'][1])['k'] == 'VarRef'): continue
                     chs = strip(src['args'][0])
                     while chs['k'] in ('Borrow', 'Deref'): chs = strip(chs['arg'])
@@ -447,7 +561,7 @@ def rule_sudoku(F, R):
                 if b['k'] == 'Call' and (callee_name(b) or '').endswith('<impl char>::is_digit') and strip(b['args'][1]).get('value') == '10' and root_var(b['args'][0]) == a1: digs.append(b)
                 if b['k'] == 'Call' and (callee_name(b) or '').endswith('<impl char>::is_ascii_digit') and root_var(b['args'][0]) == a1: digs.append(b)
             others = [cnd for cnd in conds if cnd['k'] != 'Let' and not any(strip(cnd) is d for d in digs)]
-            okh = len(digs) >= 1 and not others
+            okh = (len(digs) >= 1 or digit_by_payload) and not others
             why = 'a hint must be emitted exactly when the character is a decimal digit (is_digit(ch, 10) / is_ascii_digit), under no other condition'
     R.count('U:hint-rule'); R.obligation(okh, 'U hints')
     if not okh: R.violation('sudoku_gen::main / U / hints', 'U', why)
@@ -515,7 +629,8 @@ def classify(F, c, em, gcx):
     pat = tokenizer_pattern(F.lib())[0]
     if pat is None: raise UUndec('tokenizer pattern not found')
     if len(tup) != 1 or engine_l.tokenize_text(pat, txt) != ['VAR:_ARG_is_ARG']: raise UUndec('list member is not formatted as the single variable _<cell>_is_<number> (template %r)' % txt)
-    if em['sep'] != [', ']: raise UUndec('list members must be joined by ", "')
+    if not (isinstance(em['sep'], list) and len(em['sep']) == 1 and isinstance(em['sep'][0], str) and engine_l.tokenize_text(pat, em['sep'][0]) == ['Comma']):
+        raise UUndec('list members must be separated by one comma (found %r)' % (em['sep'],))
     if engine_l.tokenize_text(pat, em['text']) != ['OpenSquare', 'VAR:ARG', 'CloseSquare', 'Eq', 'NUM:1', 'And']: raise UUndec('list must be emitted as `[..] = 1 &`, got %r' % em['text'])
     cell = poly_of(tup[0]['fields'][0], cx)
     num = poly_of(tup[0]['fields'][1], cx)
